@@ -29,6 +29,7 @@ def run(rep, tier, seed):
         c12.G["SH"] = load_log_all(out)["E"]
         # look-alike texts for the "texts" focus: layout-like whitespace with and without line breaks, "" and None
         c12.G["SH_text_of"] = ({0: None, 1: "\n", 2: "", 3: "\n    ", 4: " ", 5: "\r\n\t", 6: "x"}.get if "Texts" in cfg else None)
+        c12.G["SH_typed"] = ([{1: 2, 2: "2"}, {1: True, 2: "True"}, {1: "0.5", 2: 0.5}, {1: None, 2: "None"}, {1: 0, 2: "0"}] if "Maps" in cfg else None)
         os.remove(out)
         if not any(e["same"] for e in c12.G["SH"]) or all(e["same"] for e in c12.G["SH"]):
             raise MachineryError("vacuous shapes")
